@@ -137,6 +137,22 @@ class StyleUser(Recorder):
         return Recorder.handle(self, args, io, command)
 
 
+def counting_handler_factory(log):
+    """a handler FACTORY (Config.handler calls a callable handler on every access): every run gets a new handler object,
+    whose own state therefore always starts from scratch"""
+    class Counting(Recorder):
+        def __init__(self):
+            Recorder.__init__(self, log)
+            self.seen = 0
+
+        def handle(self, args, io, command):
+            self.seen += 1
+            io.write_line("call %d of this handler object" % self.seen)
+            return Recorder.handle(self, args, io, command)
+
+    return Counting
+
+
 def build_history_app():
     from clikit import ConsoleApplication
     from clikit.api.args.format import Argument, Option
@@ -187,6 +203,8 @@ def build_history_app():
         c.set_handler(Styler(log))
     with config.command("usezz") as c:
         c.set_handler(StyleUser(log))
+    with config.command("cnt") as c:
+        c.set_handler(counting_handler_factory(log))
     return ConsoleApplication(config), log
 
 
@@ -206,6 +224,8 @@ LINES = [
     # error message) is gone with that run
     # (closing tags are spelled in two pieces: this file is itself the source of frames rendered by the trace checks, and
     # unbalanced markup in a source line is the known C20 finding mismatched-tags-in-source)
+    # token lists that differ although they join to the same text; a handler built per run by a factory
+    'foo "a b"', "foo a b", "cnt",
     # the kind of stream of one run (terminal / pipe) is that run's business
     TTY + "foo a", TTY + "foo a --no-ansi", TTY + "nope",
     "style", "usezz", "style --ansi", "usezz --ansi", "'<" + "/info>' --ansi", "'<error>' --ansi", "'<" + "/info>' --no-ansi",
